@@ -91,14 +91,7 @@ Definition paren_ident_list (ts : list token) : outcome (list string * list toke
   do (l, ts) <- ident_list (S (length ts)) [] ts;
   if negb (isT (cur ts) TyRParen) then Err EExpected else Val (l, advance ts).
 
-(* parseNullsClause *)
-Definition parse_nulls (ts : list token) : outcome (option bool * list token) :=
-  if isT (cur ts) TyNulls then
-    let ts := advance ts in
-    if isT (cur ts) TyFirst then Val (Some true, advance ts)
-    else if isT (cur ts) TyLast then Val (Some false, advance ts)
-    else Err EExpected
-  else Val (None, ts).
+(* parseNullsClause: [parse_nulls] of Model/ExprParse.v (the window specification uses it too) *)
 
 Definition set_with_select (w : gwith) (s : gselect) : gselect :=
   match s with GSelect _ d don cols from tn joins wh gb hv ob lim off fe fo => GSelect (Some w) d don cols from tn joins wh gb hv ob lim off fe fo end.
